@@ -86,7 +86,10 @@ func traceMode(in *mbt.Input, res *mbt.Result) {
 			if n != last {
 				last, lastChange = n, time.Now()
 				dl = time.Now().Add(4 * time.Second) // only a run that stopped moving is judged
-			} else if stuckOK && time.Since(lastChange) > 60*time.Millisecond {
+			} else if stuckOK && time.Since(lastChange) > 60*time.Millisecond && total-n <= (maxSize-1)*(sh.NOps+1) {
+				// nothing moved for a while and what is missing fits into partial batches (one per operator batcher
+				// plus the key-event batcher) that, without a batch time-out, never flush: the run is over. With more
+				// missing than that the runner is merely slow (loaded machine): wait for the 4 s deadline.
 				break
 			}
 			time.Sleep(300 * time.Microsecond)
